@@ -37,6 +37,7 @@ def tee_invariant(verifier):
         if f"done{i}" in H:
             out.append((f"child {i}: finished child is not buffered for", not registered))
             out.append((f"child {i}: nothing is buffered for a finished child", z3.Length(buf.to_seq()) == as_int(H[f"deadlen{i}"])))
+            out.append((f"child {i}: a finished child retains no backlog", z3.Length(buf.to_seq()) == 0))
     if "cur" in H:
         # an advance of child `cur` is in progress: the ghost copy of its counter taken at the start is still current
         out.append(("in-progress advance: remembered counter is current", as_int(H["last_y"]) == as_int(g[f"y{H['cur']}"])))
